@@ -187,7 +187,8 @@ def Tree.WF (t : Tree) : Prop :=
 
 `PickleStorage` derives its files from the name it is given.  `replaceTail` is `Path.with_suffix(".pckl")`: the text
 after the last dot of the last component is REPLACED, so `relax.v2`, `relax.v1` and `relax` all become `relax.pckl` --
-one store.  `append` is `<name> + ".pckl"`: every name its own store.  The primary name is the one the live graph is
+one store (the code before `84ba7a5`).  `append` is `<name> + ".pckl"` (`PickleStorage._with_suffix`, the tree as it
+is): every name its own store.  The primary name is the one the live graph is
 saved under; the neighbour is used by other objects.  Physically the files of key `relax.v2.*` are the `main` columns,
 those of key `relax.*` the `recovery` columns of the `Tree`. -/
 
